@@ -240,3 +240,233 @@ Section Main.
     rewrite (fadd R_mivdr K_RIGHT_NODATA_OR_DISPARITY_RANGE_MISSING m true eq_refl T). reflexivity.
   Qed.
 End Main.
+
+(* ------------------------------------------------------------------ model conditions = documented causes *)
+
+Section Corr.
+  Variables (L : layout) (gmin gmax : Z -> Z -> Z).
+  Hypothesis Hoff : 0 <= off L.
+  Hypothesis Hd : dmin L <= dmax L.
+  Let S := scene_of L gmin gmax.
+
+  (* the dilated no-data mask is "some no-data pixel in the window, inside the image" *)
+  Lemma dil_win_nodata : forall has m ndv r c,
+    win_nodata_b S (fun i j => has && (m i j =? ndv)) r c = has && dil L m ndv r c.
+  Proof.
+    intros has m ndv r c. apply bool_eq_iff. unfold win_nodata_b, dil. rewrite !zr_zrange.
+    unfold S, scene_of, in_img_b. cbn [s_off s_nr s_nc].
+    rewrite andb_true_iff, !existsb_zrange. split.
+    - intros (i & Hi & H). apply existsb_zrange in H as (j & Hj & H).
+      split; [lia|]. exists i. split; [lia|]. apply existsb_zrange. exists j. split; lia.
+    - intros (Hh & i & Hi & H). apply existsb_zrange in H as (j & Hj & H).
+      exists i. split; [lia|]. apply existsb_zrange. exists j. split; lia.
+  Qed.
+
+  Section Px.
+    Variables r c : Z.
+    Hypothesis Hwin : win_in_b S r c = true.
+
+    Lemma win_cand : forall d, win_in_b S r (c + d) = vidx L c d.
+    Proof.
+      intro d. unfold win_in_b, vidx, last_col in *. unfold S, scene_of in *. cbn [s_off s_nr s_nc] in *. lia.
+    Qed.
+
+    Lemma no_cand_iff : bit1_col L c = true <-> forall d, dmin L <= d <= dmax L -> vidx L c d = false.
+    Proof.
+      unfold win_in_b, S, scene_of in Hwin. cbn [s_off s_nr s_nc] in Hwin.
+      unfold bit1_col, vidx, last_col. split.
+      - intros H d Hdd. destruct (dmax L <? 0) eqn:?; [lia|]. destruct (dmin L >? 0) eqn:?; [lia|discriminate].
+      - intro H. destruct (dmax L <? 0) eqn:?; [specialize (H (dmax L)); lia|].
+        destruct (dmin L >? 0) eqn:?; [specialize (H (dmin L)); lia | specialize (H 0); lia].
+    Qed.
+
+    Lemma cause0_B0 : cause0_b S r c = B0 L r c.
+    Proof.
+      unfold cause0_b. rewrite Hwin. cbn [negb orb]. unfold B0.
+      change (s_lnodata S) with (fun i j => lhas L && (lm L i j =? l_nd L)). apply dil_win_nodata.
+    Qed.
+
+    Lemma cause6_B6 : cause6_b S r c = B6 L r c.
+    Proof. reflexivity. Qed.
+
+    Lemma cause2_B2 : cause2_b S r c = b2_col L c.
+    Proof.
+      apply bool_eq_iff. unfold cause2_b. rewrite !zr_zrange, andb_true_iff, !existsb_zrange.
+      change (s_dmin S) with (dmin L). change (s_dmax S) with (dmax L).
+      assert (Hw := Hwin). unfold win_in_b, S, scene_of in Hw. cbn [s_off s_nr s_nc] in Hw.
+      split.
+      - intros ((d1 & Hd1 & H1) & (d2 & Hd2 & H2)). rewrite win_cand in H1, H2.
+        unfold b2_col, vidx, last_col in *.
+        destruct (dmax L <? 0) eqn:?; [lia|]. destruct (dmin L >? 0) eqn:?; lia.
+      - intro H. unfold b2_col, last_col in H.
+        destruct (dmax L <? 0) eqn:?; [| destruct (dmin L >? 0) eqn:?].
+        + split; [exists (dmin L) | exists (dmax L)]; rewrite win_cand; unfold vidx, last_col; lia.
+        + split; [exists (dmax L) | exists (dmin L)]; rewrite win_cand; unfold vidx, last_col; lia.
+        + split; [| exists 0; rewrite win_cand; unfold vidx, last_col; lia].
+          destruct (c + dmin L <? 0 + off L) eqn:?;
+            [exists (dmin L) | exists (dmax L)]; rewrite win_cand; unfold vidx, last_col; lia.
+    Qed.
+
+    Lemma cause7_B7 : cause7_b S r c = B7 L r c.
+    Proof.
+      apply bool_eq_iff. unfold cause7_b, B7. rewrite !zr_zrange, !andb_true_iff, existsb_zrange, !forallb_zrange.
+      change (s_dmin S) with (dmin L). change (s_dmax S) with (dmax L).
+      split.
+      - intros ((d0 & Hd0 & H0) & H). rewrite win_cand in H0.
+        assert (Hr : rhas L = true).
+        { specialize (H d0 Hd0). rewrite win_cand, H0 in H. cbn in H. apply andb_true_iff in H. tauto. }
+        split; [split; [exact Hr|]|].
+        + destruct (bit1_col L c) eqn:Hb; [|reflexivity]. pose proof (proj1 no_cand_iff Hb) as Hb'. rewrite (Hb' d0 Hd0) in H0. discriminate.
+        + intros d Hdd. specialize (H d Hdd). rewrite win_cand in H. unfold inc7.
+          destruct (vidx L c d); [|reflexivity]. cbn in H |- *. rewrite Hr in H. exact H.
+      - intros ((Hr & Hb) & H). split.
+        + destruct (bit1_col L c) eqn:Hb1; [discriminate|].
+          assert (~ (forall d, dmin L <= d <= dmax L -> vidx L c d = false)) as Hn
+            by (intro Hc; pose proof (proj2 no_cand_iff Hc); congruence).
+          (* a candidate exists: the one no_cand_iff looks at *)
+          assert (Hw := Hwin). unfold win_in_b, S, scene_of in Hw. cbn [s_off s_nr s_nc] in Hw.
+          unfold bit1_col, last_col in Hb1. revert Hb1.
+          destruct (dmax L <? 0) eqn:?; [| destruct (dmin L >? 0) eqn:?]; intro Hb1;
+            [exists (dmax L) | exists (dmin L) | exists 0]; rewrite win_cand; unfold vidx, last_col; lia.
+        + intros d Hdd. specialize (H d Hdd). rewrite win_cand. unfold inc7 in H.
+          destruct (vidx L c d); [|reflexivity]. cbn in H |- *. rewrite Hr. exact H.
+    Qed.
+
+    (* every model condition that raises an invalid bit implies "no computable disparity" *)
+    Lemma nocost_of : (bit1_col L c || BN L r c || B0 L r c || B6 L r c || B7 L r c) = true ->
+      no_cost_b S r c = true.
+    Proof.
+      intro H. unfold no_cost_b. rewrite zr_zrange, forallb_zrange.
+      change (s_dmin S) with (dmin L). change (s_dmax S) with (dmax L).
+      intros d Hdd. apply negb_true_iff. unfold computable_b.
+      repeat (apply orb_true_iff in H as [H | H]).
+      - pose proof (proj1 no_cand_iff H) as H'. rewrite win_cand, (H' d Hdd). rewrite Hwin. reflexivity.
+      - unfold BN in H. apply andb_true_iff in H as [H1 H2]. apply andb_true_iff in H1 as [Hr _].
+        rewrite forallb_zrange in H2. specialize (H2 d Hdd). unfold incn in H2. rewrite win_cand.
+        destruct (vidx L c d); [| rewrite Hwin; reflexivity].
+        cbn in H2.
+        change (s_rnodata S) with (fun i j => rhas L && (rm L i j =? r_nd L)).
+        rewrite (dil_win_nodata (rhas L) (rm L) (r_nd L) r (c + d)), Hr, H2. cbn. rewrite !andb_false_r. reflexivity.
+      - rewrite <- cause0_B0 in H. unfold cause0_b in H. rewrite Hwin in H. cbn [negb] in H. rewrite orb_false_l in H. rewrite H.
+        cbn. rewrite !andb_false_r. reflexivity.
+      - unfold B6 in H. change (s_linvalid S r c) with (lhas L && isinv (lm L) (l_nd L) (l_vl L) r c).
+        rewrite H. cbn. rewrite !andb_false_r. reflexivity.
+      - unfold B7 in H. apply andb_true_iff in H as [H1 H2]. apply andb_true_iff in H1 as [Hr _].
+        rewrite forallb_zrange in H2. specialize (H2 d Hdd). unfold inc7 in H2. rewrite win_cand.
+        destruct (vidx L c d); [| rewrite Hwin; reflexivity].
+        cbn in H2. change (s_rinvalid S r (c + d)) with (rhas L && isinv (rm L) (r_nd L) (r_vl L) r (c + d)).
+        rewrite Hr, H2. cbn. rewrite !andb_false_r. reflexivity.
+    Qed.
+  End Px.
+End Corr.
+
+(* ------------------------------------------------------------------ boolean spec = declarative spec *)
+
+Section Reflect.
+  Variable S : scene.
+
+  Lemma in_img_b_iff : forall r c, in_img_b S r c = true <-> in_img S r c.
+  Proof. intros. unfold in_img_b, in_img. lia. Qed.
+
+  Lemma win_in_b_iff : forall r c, win_in_b S r c = true <-> win_in S r c.
+  Proof. intros. unfold win_in_b, win_in. lia. Qed.
+
+  Lemma win_nodata_b_iff : forall N r c, win_nodata_b S N r c = true <-> win_nodata S N r c.
+  Proof.
+    intros N r c. unfold win_nodata_b, win_nodata. rewrite !zr_zrange, existsb_zrange. split.
+    - intros (i & Hi & H). apply existsb_zrange in H as (j & Hj & H). apply andb_true_iff in H as [H1 H2].
+      exists i, j. rewrite <- in_img_b_iff. auto.
+    - intros (i & j & Hi & Hj & H1 & H2). exists i. split; [exact Hi|]. apply existsb_zrange.
+      exists j. split; [exact Hj|]. apply andb_true_iff. rewrite in_img_b_iff. auto.
+  Qed.
+
+  Lemma computable_b_iff : forall r c d, computable_b S r c d = true <-> computable S r c d.
+  Proof.
+    intros r c d. unfold computable_b, computable. rewrite !andb_true_iff, !negb_true_iff, !win_in_b_iff.
+    rewrite <- !win_nodata_b_iff, !Z.leb_le.
+    destruct (win_nodata_b S (s_lnodata S) r c), (win_nodata_b S (s_rnodata S) r (c + d));
+      intuition congruence.
+  Qed.
+
+  Lemma no_cost_b_iff : forall r c, no_cost_b S r c = true <-> no_cost S r c.
+  Proof.
+    intros r c. unfold no_cost_b, no_cost, in_interval. rewrite zr_zrange, forallb_zrange.
+    split; intros H d Hd; specialize (H d Hd).
+    - rewrite <- computable_b_iff. apply negb_true_iff in H. congruence.
+    - apply negb_true_iff. rewrite <- computable_b_iff in H. destruct (computable_b S r c d); congruence.
+  Qed.
+
+  Lemma cause0_b_iff : forall r c, in_img S r c -> (cause0_b S r c = true <-> cause0 S r c).
+  Proof.
+    intros r c Hi. unfold cause0_b, cause0, border. rewrite orb_true_iff, negb_true_iff, win_nodata_b_iff.
+    rewrite <- win_in_b_iff. destruct (win_in_b S r c); intuition congruence.
+  Qed.
+
+  Lemma cause6_b_iff : forall r c, cause6_b S r c = true <-> cause6 S r c.
+  Proof. intros. reflexivity. Qed.
+
+  Lemma cause2_b_iff : forall r c, cause2_b S r c = true <-> cause2 S r c.
+  Proof.
+    intros r c. unfold cause2_b, cause2, in_interval. rewrite !zr_zrange, andb_true_iff, !existsb_zrange.
+    split; intros ((d1 & H1 & H1') & (d2 & H2 & H2')); (split; [exists d1 | exists d2]); split; auto.
+    - rewrite <- win_in_b_iff. apply negb_true_iff in H1'. congruence.
+    - apply win_in_b_iff, H2'.
+    - apply negb_true_iff. rewrite <- win_in_b_iff in H1'. destruct (win_in_b S r (c + d1)); congruence.
+    - apply win_in_b_iff, H2'.
+  Qed.
+
+  Lemma cause7_b_iff : forall r c, cause7_b S r c = true <-> cause7 S r c.
+  Proof.
+    intros r c. unfold cause7_b, cause7, in_interval. rewrite !zr_zrange, andb_true_iff, existsb_zrange, forallb_zrange.
+    split; intros ((d1 & H1 & H1') & H); (split; [exists d1; split; [exact H1 | apply win_in_b_iff, H1'] |]).
+    - intros d Hd Hw. specialize (H d Hd). apply win_in_b_iff in Hw. rewrite Hw in H. exact H.
+    - intros d Hd. specialize (H d Hd). rewrite <- win_in_b_iff in H.
+      destruct (win_in_b S r (c + d)); [cbn; auto | reflexivity].
+  Qed.
+
+  (* the prescribed flag of a non-border pixel, bit by bit *)
+  Lemma sum_bits : forall a b c d e,
+    let m := b2z a 0 + b2z b 1 + b2z c 2 + b2z d 6 + b2z e 7 in
+    Z.testbit m 0 = a /\ Z.testbit m 1 = b /\ Z.testbit m 2 = c /\ Z.testbit m 6 = d /\ Z.testbit m 7 = e
+    /\ (Z.land m 195 =? 0) = negb (a || b || d || e) /\ Z.land m 199 = m /\ 0 <= m < 256.
+  Proof. intros [] [] [] [] []; vm_compute; intuition congruence. Qed.
+End Reflect.
+
+(* ------------------------------------------------------------------ the main statement *)
+
+Section Final.
+  Variables (E : env) (L : layout) (gmin gmax : Z -> Z -> Z) (allnan : Z -> Z -> bool).
+  Hypothesis Hwf : wf_env E = true.
+  Hypothesis Hoff : 0 <= off L.
+  Hypothesis Hd : dmin L <= dmax L.
+  Let S := scene_of L gmin gmax.
+
+  (* for every layout and every pixel of the image, when the NaN pattern of the cost volume is the one
+     C02 states (all costs NaN iff no disparity of the global interval is computable), the mask after
+     matching_cost_prepare + cv_masked is the documented one *)
+  Theorem after_mc_expected : forall r c, in_img S r c ->
+    allnan r c = no_cost_b S r c -> after_mc E L allnan r c = expected_flag S r c.
+  Proof.
+    intros r c Hi Han. unfold S in *. unfold after_mc, expected_flag.
+    assert (Hi' := Hi). unfold in_img, scene_of in Hi'. cbn [s_nr s_nc] in Hi'.
+    destruct (win_in_b (scene_of L gmin gmax) r c) eqn:Hwin; cbn [negb].
+    2:{ assert (Ho : (off L >? 0) = true).
+        { unfold win_in_b, scene_of in Hwin. cbn [s_off s_nr s_nc] in Hwin. lia. }
+        rewrite Ho, (mask_border_char E L gmin gmax Hwf) by lia. rewrite Hwin. reflexivity. }
+    assert (Hm : (if off L >? 0 then mask_border_px E L r c (mivdr E (allnan r c) (validity_mask_px E L r c))
+                  else mivdr E (allnan r c) (validity_mask_px E L r c))
+                 = mivdr E (allnan r c) (validity_mask_px E L r c)).
+    { destruct (off L >? 0) eqn:Ho; [|reflexivity].
+      rewrite (mask_border_char E L gmin gmax Hwf) by lia. rewrite Hwin. reflexivity. }
+    rewrite Hm. clear Hm.
+    rewrite (mivdr_char E Hwf), (validity_mask_px_char E L Hwf Hd), Han.
+    rewrite cause0_B0, cause2_B2, cause7_B7 by assumption.
+    change (cause6_b (scene_of L gmin gmax) r c) with (B6 L r c).
+    assert (Hnc : (bit1_col L c || BN L r c || B0 L r c || B6 L r c || B7 L r c) = true -> no_cost_b (scene_of L gmin gmax) r c = true) by (apply nocost_of; assumption).
+    assert (Hx : bit1_col L c = true -> BN L r c = false).
+    { intro Hb. unfold BN. rewrite Hb. cbn. rewrite andb_false_r. reflexivity. }
+    destruct (b2_col L c), (bit1_col L c), (B0 L r c), (B6 L r c), (B7 L r c), (BN L r c), (no_cost_b (scene_of L gmin gmax) r c);
+      try reflexivity; cbn in Hnc; try (specialize (Hnc eq_refl); discriminate);
+      try (specialize (Hx eq_refl); discriminate).
+  Qed.
+End Final.
